@@ -146,6 +146,8 @@ pub struct Sim {
     pub booked: Vec<(u64, u64)>,
     /// number of intermediate statuses before the final packets
     pub intermediates: usize,
+    /// the intermediate status packet to send (None: `04 ff 02 17 00`)
+    pub intermediate_body: Option<Vec<u8>>,
     /// reply packets (after the ack) for ReadCard, built by the check
     pub card_replies: Vec<Vec<u8>>,
     /// status-information packets sent for a PartialReversal (before the completion), built by the check; empty = one default
@@ -178,6 +180,7 @@ impl Sim {
             dangling: None,
             booked: vec![],
             intermediates: 0,
+            intermediate_body: None,
             card_replies: vec![],
             reversal_status: vec![],
             chatter: vec![],
@@ -339,7 +342,7 @@ fn respond(g: &mut Sim, kind: Kind, apdu: &[u8], d: &Directive) -> Vec<Vec<u8>> 
     let chatty = matches!(kind, Kind::Init | Kind::EndOfDay | Kind::ReadCard | Kind::Reservation | Kind::PartialReversal | Kind::PreAuthReversal);
     if chatty {
         for _ in 0..g.intermediates {
-            r.push(intermediate_packet());
+            r.push(g.intermediate_body.clone().unwrap_or_else(intermediate_packet));
         }
     }
     if matches!(kind, Kind::Init | Kind::EndOfDay | Kind::Reservation | Kind::PartialReversal | Kind::PreAuthReversal) {
